@@ -143,7 +143,8 @@ class Server:
             'kexinit_raw': None,       # latin-1 payload overriding the lists
             'hostkeys': {},            # keytype -> blob spec
             'moduli': [], 'gex_style': 'strict',
-            'moduli_by_alg': None,     # optional: gex algorithm name -> moduli (overrides 'moduli' for that algorithm)
+            'moduli_by_alg': None,
+            'gex_style_by_alg': None,  # optional: gex algorithm name -> selection style (overrides 'gex_style' for that algorithm)     # optional: gex algorithm name -> moduli (overrides 'moduli' for that algorithm)
             'kexinit_pad': None,       # padding length of the KEXINIT packet (None = minimal)
             'faults': [],              # [what, conn_idx | '*', fault]
             'reply_delay': None,       # seconds slept before every send (engine B only)
@@ -213,20 +214,21 @@ class Server:
     def choose_modulus(self, mn, pref, mx, alg=None):
         by = self.spec.get('moduli_by_alg') or {}
         ms = sorted(by[alg]) if alg in by else sorted(self.moduli)
-        if self.gex_style == 'strict':
+        style = (self.spec.get('gex_style_by_alg') or {}).get(alg, self.gex_style)
+        if style == 'strict':
             cand = [m for m in ms if mn <= m <= mx]
             if not cand:
                 return None
             ge = [m for m in cand if m >= pref]
             return ge[0] if ge else cand[-1]
-        if self.gex_style == 'roundup':
+        if style == 'roundup':
             cand = [m for m in ms if m >= mn]
             return cand[0] if cand else (ms[-1] if ms else None)
-        if self.gex_style == 'prefup':
+        if style == 'prefup':
             # smallest group not below the preferred size, whatever the maximum says (largest one if there is none)
             cand = [m for m in ms if m >= pref]
             return cand[0] if cand else (ms[-1] if ms else None)
-        if self.gex_style == 'openssh':
+        if style == 'openssh':
             mn2, mx2, pref2 = max(mn, 2048), min(mx, 8192), min(max(pref, 2048), 8192)
             if mx2 < mn2 or pref2 < mn2 or mx2 < pref2:
                 return None
@@ -235,7 +237,7 @@ class Server:
                 return 2048
             ge = [m for m in cand if m >= pref2]
             return ge[0] if ge else cand[-1]
-        raise ValueError(self.gex_style)
+        raise ValueError(style)
 
 
 class Conn:
